@@ -72,6 +72,9 @@ def norm_cond(n, tail=False):
         return norm_cond(s.children[1], tail)
     if s.k == "UnaryOperator" and s.j.get("op") == "!":
         return norm_cond(s.children[0], tail).negated()
+    if s.k == "BinaryOperator" and s.j.get("op") == "=":
+        # (v = f(...)) used as a condition: its value is v's new value
+        return norm_cond(s.children[0], tail)
     if s.k == "BinaryOperator":
         op = s.j.get("op")
         a, b = s.children[0], s.children[1]
